@@ -4,7 +4,7 @@
 
 use std::collections::BTreeMap;
 
-use crate::bignat::{n, N};
+use crate::bignat::{n, z, N, Z};
 use crate::cover::{lg, Cover};
 use crate::ops::*;
 use crate::sim::*;
@@ -390,21 +390,16 @@ fn swap_parts(ctx: &Ctx) -> Option<(usize, AssetAmt, Option<AddrRef>, Vec<Fund>,
     }
 }
 
-type DeltaMap = BTreeMap<(String, String), i128>;
+type DeltaMap = BTreeMap<(String, String), Z>;
 
-fn add(m: &mut DeltaMap, asset: &str, account: &str, v: i128) {
-    *m.entry((asset.to_string(), account.to_string())).or_insert(0) += v;
+fn add(m: &mut DeltaMap, asset: &str, account: &str, v: Z) {
+    *m.entry((asset.to_string(), account.to_string())).or_insert_with(Z::zero) += v;
 }
 
 fn actual_delta_map(ctx: &Ctx) -> Option<DeltaMap> {
     let mut m = DeltaMap::new();
     for c in &ctx.view.delta.bal {
-        let d = if c.new >= c.old {
-            i128::try_from(c.new - c.old).ok()?
-        } else {
-            -i128::try_from(c.old - c.new).ok()?
-        };
-        add(&mut m, &c.asset, &c.account, d);
+        add(&mut m, &c.asset, &c.account, Z::diff(c.new, c.old));
     }
     Some(m)
 }
@@ -413,8 +408,8 @@ fn diff_maps(exp: &DeltaMap, act: &DeltaMap) -> Vec<String> {
     let mut out = vec![];
     let keys: std::collections::BTreeSet<_> = exp.keys().chain(act.keys()).collect();
     for k in keys {
-        let e = *exp.get(k).unwrap_or(&0);
-        let a = *act.get(k).unwrap_or(&0);
+        let e = exp.get(k).cloned().unwrap_or_else(Z::zero);
+        let a = act.get(k).cloned().unwrap_or_else(Z::zero);
         if e != a {
             out.push(format!("{}@{}: expected {:+} actual {:+}", k.0, k.1, e, a));
         }
@@ -485,7 +480,7 @@ fn c02_settlement(ctx: &Ctx, cov: &mut Cover) {
         .filter(|f| crate::ledger::native_key(&f.denom) == ka)
         .map(|f| f.amount.u128())
         .sum();
-    let outflow = (ctx.view.pre(&ka, &p.addr) + e_ask).checked_sub(ctx.view.post(&ka, &p.addr));
+    let outflow = ctx.view.pre(&ka, &p.addr).saturating_add(e_ask).checked_sub(ctx.view.post(&ka, &p.addr));
     let reported = attrs.first().and_then(|m| attr_u128(m, "return_amount"));
     let nret = match (reported, outflow) {
         (Some(r), _) => r,
@@ -494,8 +489,8 @@ fn c02_settlement(ctx: &Ctx, cov: &mut Cover) {
     };
     // a) reserve(o) rose by exactly v ; b) delivered by the sender in this transaction
     cov.eval("C02", "a");
-    let rise = ctx.view.post(&ko, &p.addr) as i128 - ctx.view.pre(&ko, &p.addr) as i128;
-    if rise != v as i128 {
+    let rise = Z::diff(ctx.view.post(&ko, &p.addr), ctx.view.pre(&ko, &p.addr));
+    if rise != z(v) {
         cov.violate(
             "C02",
             "a",
@@ -509,8 +504,8 @@ fn c02_settlement(ctx: &Ctx, cov: &mut Cover) {
     }
     if ctx.sender != p.addr {
         cov.eval("C02", "b");
-        let fall = ctx.view.pre(&ko, ctx.sender) as i128 - ctx.view.post(&ko, ctx.sender) as i128;
-        let expect = v as i128 - if receiver == ctx.sender && ka == ko { nret as i128 } else { 0 };
+        let fall = Z::diff(ctx.view.pre(&ko, ctx.sender), ctx.view.post(&ko, ctx.sender));
+        let expect = z(v) - if receiver == ctx.sender && ka == ko { z(nret) } else { Z::zero() };
         if fall != expect {
             cov.violate(
                 "C02",
@@ -539,18 +534,18 @@ fn c02_settlement(ctx: &Ctx, cov: &mut Cover) {
     }
     // d/e) full expected delta map
     let mut exp = DeltaMap::new();
-    add(&mut exp, &ko, ctx.sender, -(v as i128));
-    add(&mut exp, &ko, &p.addr, v as i128);
-    add(&mut exp, &ka, &p.addr, -(nret as i128));
-    add(&mut exp, &ka, &receiver, nret as i128);
+    add(&mut exp, &ko, ctx.sender, -z(v));
+    add(&mut exp, &ko, &p.addr, z(v));
+    add(&mut exp, &ka, &p.addr, -z(nret));
+    add(&mut exp, &ka, &receiver, z(nret));
     for f in &funds {
         let k = crate::ledger::native_key(&f.denom);
         if k != ko {
-            add(&mut exp, &k, ctx.sender, -(f.amount.u128() as i128));
-            add(&mut exp, &k, &p.addr, f.amount.u128() as i128);
+            add(&mut exp, &k, ctx.sender, -z(f.amount.u128()));
+            add(&mut exp, &k, &p.addr, z(f.amount.u128()));
         }
     }
-    exp.retain(|_, v| *v != 0);
+    exp.retain(|_, v| !v.is_zero());
     if let Some(act) = actual_delta_map(ctx) {
         cov.eval("C02", "d");
         cov.eval("C02", "e");
@@ -711,10 +706,10 @@ fn c06_exec(ctx: &Ctx, cov: &mut Cover) {
         .sum();
     // the pool the offer was priced against: pre reserves (offer side net of the delivery)
     let x = ctx.view.pre(&ko, &p.addr);
-    let y = ctx.view.pre(ka, &p.addr) + e_ask;
+    let y = ctx.view.pre(ka, &p.addr).saturating_add(e_ask);
     // only when the named offer is what was actually delivered (C02 judges the rest)
-    let rise = ctx.view.post(&ko, &p.addr) as i128 - x as i128;
-    if rise != offer.amount.u128() as i128 {
+    let rise = Z::diff(ctx.view.post(&ko, &p.addr), x);
+    if rise != z(offer.amount.u128()) {
         return;
     }
     c06_check(cov, ctx.ev.seq, "exec", x, y, offer.amount.u128(), &p.commission, ret, sp, cm);
@@ -740,8 +735,8 @@ fn c04_withdraw(ctx: &Ctx, cov: &mut Cover) {
     let e18 = N::e18();
     let mut exp = DeltaMap::new();
     for i in 0..2 {
-        let x_i = ctx.view.post(&p.keys[i], holder) as i128 - ctx.view.pre(&p.keys[i], holder) as i128;
-        if x_i < 0 {
+        let x_i = Z::diff(ctx.view.post(&p.keys[i], holder), ctx.view.pre(&p.keys[i], holder));
+        if x_i.is_neg() {
             cov.violate(
                 "C04",
                 "a",
@@ -751,7 +746,7 @@ fn c04_withdraw(ctx: &Ctx, cov: &mut Cover) {
             );
             continue;
         }
-        let x_i = x_i as u128;
+        let x_i = x_i.to_u128().unwrap_or(u128::MAX);
         let res = (&n(r[i]) * &n(a)).rem(&n(s));
         cov.case(
             "C04",
@@ -786,13 +781,13 @@ fn c04_withdraw(ctx: &Ctx, cov: &mut Cover) {
                 format!("pair {} r={} a={} S={} paid {}", p.addr, r[i], a, s, x_i),
             );
         }
-        add(&mut exp, &p.keys[i], holder, x_i as i128);
-        add(&mut exp, &p.keys[i], &p.addr, -(x_i as i128));
+        add(&mut exp, &p.keys[i], holder, z(x_i));
+        add(&mut exp, &p.keys[i], &p.addr, -z(x_i));
     }
     cov.eval("C04", "c");
-    let ds = s as i128 - ctx.view.post_supply(&lpk) as i128;
-    let dh = ctx.view.pre(&lpk, holder) as i128 - ctx.view.post(&lpk, holder) as i128;
-    if ds != a as i128 || dh != a as i128 {
+    let ds = Z::diff(s, ctx.view.post_supply(&lpk));
+    let dh = Z::diff(ctx.view.pre(&lpk, holder), ctx.view.post(&lpk, holder));
+    if ds != z(a) || dh != z(a) {
         cov.violate(
             "C04",
             "c",
@@ -801,8 +796,8 @@ fn c04_withdraw(ctx: &Ctx, cov: &mut Cover) {
             format!("burn {}: supply fell by {}, holder LP fell by {}", a, ds, dh),
         );
     }
-    add(&mut exp, &lpk, holder, -(a as i128));
-    exp.retain(|_, v| *v != 0);
+    add(&mut exp, &lpk, holder, -z(a));
+    exp.retain(|_, v| !v.is_zero());
     if let Some(act) = actual_delta_map(ctx) {
         cov.eval("C04", "d");
         let d = diff_maps(&exp, &act);
@@ -867,11 +862,11 @@ fn c05_provide(ctx: &Ctx, cov: &mut Cover) {
         None => ctx.sender.to_string(),
     };
     let post_supply = ctx.view.post_supply(&lpk);
-    let minted_total = post_supply as i128 - s as i128;
-    let m_recv = ctx.view.post(&lpk, &recv) as i128 - ctx.view.pre(&lpk, &recv) as i128;
+    let minted_total = Z::diff(post_supply, s);
+    let m_recv = Z::diff(ctx.view.post(&lpk, &recv), ctx.view.pre(&lpk, &recv));
     let mut exp = DeltaMap::new();
     if s > 0 {
-        let m = m_recv;
+        let m = m_recv.clone();
         let which_min = if &n(d0) * &n(r[1]) <= &n(d1) * &n(r[0]) { 0 } else { 1 };
         cov.case(
             "C05",
@@ -887,11 +882,11 @@ fn c05_provide(ctx: &Ctx, cov: &mut Cover) {
             ),
         );
         cov.eval("C05", "c");
-        if m < 1 {
+        if m < z(1) {
             cov.violate("C05", "c", "minted-nothing", ctx.ev.seq, format!("minted {}", m));
             return;
         }
-        let mu = m as u128;
+        let mu = m.to_u128().unwrap_or(u128::MAX);
         cov.eval("C05", "a");
         for i in 0..2 {
             if &n(mu) * &n(r[i]) > &n(dd[i]) * &n(s) {
@@ -983,23 +978,23 @@ fn c05_provide(ctx: &Ctx, cov: &mut Cover) {
                 format!("LP token's own balance {} -> {}", locked_pre, locked),
             );
         }
-        add(&mut exp, &lpk, &p.lp, 1);
-        add(&mut exp, &lpk, &recv, minted_total - 1);
+        add(&mut exp, &lpk, &p.lp, z(1));
+        add(&mut exp, &lpk, &recv, minted_total.clone() - z(1));
     }
     // d) exact pulls
     for i in 0..2 {
-        add(&mut exp, &p.keys[i], ctx.sender, -(dd[i] as i128));
-        add(&mut exp, &p.keys[i], &p.addr, dd[i] as i128);
+        add(&mut exp, &p.keys[i], ctx.sender, -z(dd[i]));
+        add(&mut exp, &p.keys[i], &p.addr, z(dd[i]));
     }
     // extra attached coins of denoms that are not pair assets are a donation by the sender
     for f in funds.iter() {
         let k = crate::ledger::native_key(&f.denom);
         if p.index_of_key(&k).is_none() {
-            add(&mut exp, &k, ctx.sender, -(f.amount.u128() as i128));
-            add(&mut exp, &k, &p.addr, f.amount.u128() as i128);
+            add(&mut exp, &k, ctx.sender, -z(f.amount.u128()));
+            add(&mut exp, &k, &p.addr, z(f.amount.u128()));
         }
     }
-    exp.retain(|_, v| *v != 0);
+    exp.retain(|_, v| !v.is_zero());
     if let Some(act) = actual_delta_map(ctx) {
         cov.eval("C05", "d");
         let dm = diff_maps(&exp, &act);
@@ -1162,9 +1157,9 @@ fn c07_third_parties(ctx: &Ctx, cov: &mut Cover) {
         }
     }
     // conservation per asset
-    let mut sums: BTreeMap<String, i128> = BTreeMap::new();
+    let mut sums: BTreeMap<String, Z> = BTreeMap::new();
     for c in &ctx.view.delta.bal {
-        *sums.entry(c.asset.clone()).or_insert(0) += c.new as i128 - c.old as i128;
+        *sums.entry(c.asset.clone()).or_insert_with(Z::zero) += Z::diff(c.new, c.old);
     }
     let lp_assets: Vec<String> = m.pairs.iter().map(|p| p.lp_key()).collect();
     for (asset, sum) in &sums {
@@ -1174,13 +1169,13 @@ fn c07_third_parties(ctx: &Ctx, cov: &mut Cover) {
             .supply
             .iter()
             .find(|s| &s.0 == asset)
-            .map(|s| s.2 as i128 - s.1 as i128)
-            .unwrap_or(0);
+            .map(|s| Z::diff(s.2, s.1))
+            .unwrap_or_else(Z::zero);
         if lp_assets.contains(asset) {
             continue;
         }
         cov.eval("C07", "c");
-        if *sum != 0 || ds != 0 {
+        if !sum.is_zero() || !ds.is_zero() {
             cov.violate(
                 "C07",
                 "c",
@@ -1206,16 +1201,16 @@ fn c07_third_parties(ctx: &Ctx, cov: &mut Cover) {
     if system_op {
         for p in &m.pairs {
             let lpk = p.lp_key();
-            let ds = ctx.view.post_supply(&lpk) as i128 - ctx.view.pre_supply(&lpk) as i128;
-            let sum = *sums.get(&lpk).unwrap_or(&0);
-            if ds == 0 && sum == 0 {
+            let ds = Z::diff(ctx.view.post_supply(&lpk), ctx.view.pre_supply(&lpk));
+            let sum = sums.get(&lpk).cloned().unwrap_or_else(Z::zero);
+            if ds.is_zero() && sum.is_zero() {
                 continue;
             }
             cov.eval("C07", "d");
             let provides = ok_dispatches(ctx.trace, &p.addr, &PROVIDE_KINDS).len();
             let withdraws = ok_dispatches(ctx.trace, &p.addr, &WITHDRAW_KINDS).len();
             let ok = ds == sum
-                && ((ds > 0 && provides > 0) || (ds < 0 && withdraws > 0) || ds == 0);
+                && ((!ds.is_neg() && !ds.is_zero() && provides > 0) || (ds.is_neg() && withdraws > 0) || ds.is_zero());
             if !ok {
                 cov.violate(
                     "C07",
